@@ -1,9 +1,9 @@
 CONSTANTS
-  MaxC = 4
+  MaxC = 5
   WithPermuted = TRUE
-  FullStart = TRUE
+  FullStart = FALSE
   MaxViol = 2
-  Faults = {"serFail", "deFail", "deCorrupt", "deDropsHidden", "jsonSloppy", "jsonDiscrete", "eqSubset", "eqNotReflexive", "eqPanics", "nondetFit"}
+  Faults = {"serFail", "deFail", "deCorrupt", "deDropsHidden", "deDropsAux", "jsonSloppy", "jsonDiscrete", "eqSubset", "eqNotReflexive", "eqPanics", "nondetFit"}
 SPECIFICATION Spec
 INVARIANT InvSound
 INVARIANT InvBlame
